@@ -170,23 +170,32 @@ def probes(stbl, ltbl):
     return out
 
 
+def write_if_changed(path, text):
+    """keep the time stamp when nothing changed, so that make does not rebuild what depends on it"""
+    try:
+        if open(path).read() == text:
+            return
+    except OSError:
+        pass
+    with open(path, "w") as f:
+        f.write(text)
+
+
 def main():
     repo, loader_json, out_dir, out_probes = sys.argv[1:5]
     out_v = out_dir + "/SchemaTables.v"
     stbl = schema_table(repo)
     ltbl = loader_table(loader_json)
-    with open(out_v, "w") as f:
-        f.write("(** GENERATED on every run by harness/tools/schema (gen.py + the Go extractor) from\n"
-                "    schema/config.schema.json and internal/rules/mechanisms/*: do not edit. *)\n"
-                "From HV Require Import Base.Prelude C20.SchemaModel.\nOpen Scope string_scope.\n\n")
-        f.write(coq_table("schema_tbl", stbl))
-        f.write("\n")
-        f.write(coq_table("loader_tbl", ltbl))
-    with open(out_dir + "/SchemaTablesOk.v", "w") as f:
-        f.write("(** GENERATED on every run by harness/tools/schema: the finite statement over the regenerated tables. *)\n"
-                "From HV Require Import Base.Prelude C20.SchemaModel Gen.SchemaTables.\n\n"
-                "(** the tables agree row by row except on the recorded disagreements (C20-F1), all of which are still there *)\n"
-                "Example tables_agree : tables_ok schema_tbl loader_tbl = true.\nProof. vm_compute. reflexivity. Qed.\n")
+    write_if_changed(out_v,
+                     "(** GENERATED on every run by harness/tools/schema (gen.py + the Go extractor) from\n"
+                     "    schema/config.schema.json and internal/rules/mechanisms/*: do not edit. *)\n"
+                     "From HV Require Import Base.Prelude C20.SchemaModel.\nOpen Scope string_scope.\n\n" +
+                     coq_table("schema_tbl", stbl) + "\n" + coq_table("loader_tbl", ltbl))
+    write_if_changed(out_dir + "/SchemaTablesOk.v",
+                     "(** GENERATED on every run by harness/tools/schema: the finite statement over the regenerated tables. *)\n"
+                     "From HV Require Import Base.Prelude C20.SchemaModel Gen.SchemaTables.\n\n"
+                     "(** the tables agree row by row except on the recorded disagreements (C20-F1), all of which are still there *)\n"
+                     "Example tables_agree : tables_ok schema_tbl loader_tbl = true.\nProof. vm_compute. reflexivity. Qed.\n")
     with open(out_probes, "w") as f:
         json.dump({"probes": probes(stbl, ltbl), "schema": stbl, "loader": ltbl}, f, indent=1)
 
